@@ -57,10 +57,10 @@ CHECKS.update({
             "12 damaged images per generated history, 1..4 in-place damage operations each; a successful open may only return records that were appended. The one known way to defeat this (payload embedding a CRC-valid frame + len overwrite) is isolated in a counted decoy campaign and recorded as known finding decoy-resync; further fixed campaigns: re-typed Last frame, orphan tail after GC, zero-filled Last frame followed by an entry of exactly the lost size.",
             "Trusted: 'up to a CRC-32 collision'; frame layout from hook write events.", "9/C08"),
     "C09": ("fault_enumeration", "single-frame payload/CRC damage enumerated over every frame of the WAL image of generated histories; loss oracle against the reference model",
-            "Every frame present in the final image of each generated history is damaged in turn (payload or CRC bytes only); open must succeed and every retained record not written by the damaged entry must be recovered intact.",
+            "Every frame present in the final image of each generated history is damaged in turn (payload or CRC bytes only); open must succeed and every retained record not written by the damaged entry must be recovered intact. An entry that was not hit keeps its effect: a queue absent at the end of the undamaged history may exist after recovery only if the damaged frame was written by the delete_queue call for that name.",
             "Trusted: frame layout and frame->call ownership from hook write events; the retained set is what the undamaged log returned.", "9/C09"),
     "C12": ("fault_enumeration", "crash-point enumeration + single-frame damage enumeration over generated batch-heavy histories; all-or-nothing oracle per batch",
-            "For batch-dominated generated histories (multi-frame, multi-file entries) every enumerated crash image and every single-frame-damaged image is recovered and EVERY batch of the history must be recovered entirely, not at all, or as the suffix left by a requested truncation.",
+            "For batch-dominated generated histories (multi-frame, multi-file entries) every enumerated crash image and every single-frame-damaged image is recovered and EVERY batch of the history must be recovered entirely, not at all, or as the suffix left by a requested truncation. Two-step variants: an entry of exactly the missing size appended after a crash between two frames; a same-size batch appended after header damage and crashed at every point inside that call.",
             "Trusted: process-crash model; for re-used queue names a recovered record is attributed to a batch by its bytes (only batches with >= 8 pseudo-random bytes per payload are judged).", "9/C12"),
 })
 
